@@ -119,7 +119,10 @@ class Gen:
                         env[l].append(x)
             elif k < 0.40 and env["vis"] and (env["writable"] + env["mine"]):
                 tgt = r.choice(env["writable"] + env["mine"])
-                if r.random() < 0.5:
+                # a name this function does not declare is only ever updated by a compound assignment: a
+                # plain one would create it when nobody owns it (finding C08-implicit-declaration-by-assignment;
+                # the created variable takes the type of the value, which Mech does not model)
+                if r.random() < 0.5 and tgt not in env.get("foreign_w", ()):
                     out.append("(asg (v %d) %s)" % (tgt, self.pure(env["vis"], 2)))
                 else:
                     out.append("(casg %s (v %d) %s)" % (r.choice(["+", "-"]), tgt, self.pure(env["vis"], 1)))
@@ -235,7 +238,8 @@ class Gen:
                 env["vis"] = env["vis"] + r.sample(foreign, min(2, len(foreign)))
                 self.feats.add("free-name-in-callee")
             if r.random() < 0.4 and wforeign:
-                env["writable"] = env["writable"] + r.sample(wforeign, 1)
+                env["foreign_w"] = r.sample(wforeign, 1)
+                env["writable"] = env["writable"] + env["foreign_w"]
                 self.feats.add("callee-writes-free-name")
         base = self.pure([x for x in env["vis"]], 1)
         body.append("(if (bin <= (v %d) 0) ((print 1 %s) (ret %s)) ())" % (d, " ".join("(v %d)" % p for p in fn.params), base))
